@@ -50,8 +50,10 @@ pub fn is_lax_int(b: &[u8]) -> bool {
     if parse_ll(b).is_some() {
         return false;
     }
+    // only the *spelling* is at issue: a canonical decimal that is merely out of range (2^63,
+    // 2^64-1, ...) is not lax and stays in the checked domain
     match std::str::from_utf8(b) {
-        Ok(s) => s.parse::<i128>().is_ok(),
+        Ok(s) => s.parse::<i128>().map_or(false, |v| v.to_string() != s),
         Err(_) => false,
     }
 }
